@@ -923,11 +923,17 @@ def recordKeys (s : State) : List (Addr × Denom) :=
   (s.commitments.map fun c => c.amount.map fun x => (c.account, x.1)).flatten ++
   (s.payments.map fun p => p.sourceAmt.map fun x => (p.source, x.1)).flatten
 
+/-- `GenesisState.Validate` (orders, commitments, payments): distinct non-zero order ids, every
+record valid. -/
+def Genesis.validate (g : Genesis) : Bool :=
+  (g.orders.map (·.id)).Nodup && g.orders.all (fun o => o.id ≠ 0 && o.validate) &&
+  g.commitments.all (fun c => c.market ≠ 0 && isValidCoins c.amount) && g.payments.all Payment.validate
+
 /-- `InitGenesis` on top of a state that has markets and balances but no records: store the
 records, then panic unless every account's hold covers (≥) what its records need. -/
 def initGenesis (s : State) (g : Genesis) : Except Err State :=
   let maxId := g.orders.foldl (fun m o => max m o.id) 0
-  if !(g.orders.map (·.id)).Nodup then .error .invalid      -- `GenesisState.Validate`
+  if !g.validate then .error .invalid
   else if g.lastOrderId < maxId then .error .genesis
   else match loadPayments g.payments [] with
     | none => .error .genesis
